@@ -156,12 +156,20 @@ def x_tw(p):
     res, exc = [], None
     try:
         out = rt.get_trough_wells(n_arg, arg)
+        if p.get("mutate"):
+            # a caller edits the list it got; a later call with equal arguments must not see that
+            if isinstance(out, list):
+                out.reverse()
+                out.append("Z99")
+                if len(out) > 2:
+                    out.pop(0)
+            out = rt.get_trough_wells(n_arg, arg)
         res = [str(x) for x in out]
     except Exception as e:  # noqa
         exc = e
     return {
         "fn": "tw",
-        "id": f"n={n_arg} len={p.get('len')} k={wells['k']}",
+        "id": f"n={n_arg} len={p.get('len')} k={wells['k']}" + (" after-mutation" if p.get("mutate") else ""),
         "n": n,
         "ncls": ncls,
         "wells": wells,
